@@ -96,6 +96,17 @@ def check_case(case, ctr):
     ctr['calls'] += 1
     if order_obs(case, raw.lattice) != base:
         bad('fromdict-raw-order', base, order_obs(case, raw.lattice))
+    half = {'objects': d['objects'], 'properties': d['properties'], 'context': d['context'],
+            'lattice': [(e, i, tuple(reversed(up)), tuple(reversed(lo)))
+                        for e, i, up, lo in d['lattice']]}
+    raw2 = concepts.Context.fromdict(half, raw=True)
+    ctr['calls'] += 1
+    nb = lambda lt: [([u.index for u in c.upper_neighbors], [l.index for l in c.lower_neighbors],
+                      [a.index for a in c.atoms]) for c in lt]     # noqa: E731
+    if order_obs(case, raw2.lattice) != base or nb(raw2.lattice) != nb(lat):
+        bad('fromdict-raw-neighbour-order', nb(lat), nb(raw2.lattice))
+    if nb(raw.lattice) != nb(lat):
+        bad('fromdict-raw-neighbour-order', nb(lat), nb(raw.lattice))
     rl = raw.lattice
     if rl.infimum is not list(rl)[0] or rl.supremum is not list(rl)[-1] or \
             case.opos(rl.supremum.extent) != tuple(range(case.n)):
